@@ -492,6 +492,7 @@ def build(repo, sidecar_path, extra_spec=None):
                 if not m:
                     raise ExtractionLost('%s: no return type to name' % where)
                 sig = sig[:m.start()] + '-> (%s: %s) %s' % (item.ret, m.group(1), m.group(2) or '')
+            pre_splice = sig.rstrip() + ' ' + body
             inserts = []
             # loops: positions relative to body
             lps = loops(body)
@@ -548,6 +549,20 @@ def build(repo, sidecar_path, extra_spec=None):
             else:
                 g.origin.append(('src', item.path, src_line))
                 src_line += 1
+        if item.kind == 'fn':
+            # independent re-derivation: the generated item with every marked spec region removed
+            # must be token-identical to the repository text after the logged rewrites
+            seg, skip = [], False
+            for l in text.split('\n'):
+                if l.strip() == MARK_OPEN:
+                    skip = True
+                elif l.strip() == MARK_CLOSE:
+                    skip = False
+                elif not skip:
+                    seg.append(l)
+            tok = lambda t: re.findall(r'[A-Za-z0-9_]+|\S', t)
+            if tok('\n'.join(seg)) != tok(pre_splice) and not (extra_spec and (item.newname or item.name) in extra_spec):
+                raise ExtractionLost('%s: splice check failed (generated exec text differs from repository text after logged rewrites)' % where)
         g.items.append({'name': item.newname or item.name, 'kind': item.kind, 'path': item.path,
                         'src_line': src_line0, 'src_end_line': line_of(src, span[1]),
                         'gen_first': first, 'gen_last': len(g.lines), 'sha256': sha,
